@@ -5,6 +5,7 @@ import Driver.SetDrv
 import Driver.AssocDrv
 import Driver.CollDrv
 import Driver.CdcnDrv
+import Driver.QDrv
 open Lean Drv
 
 def handle (line : String) : String :=
@@ -26,6 +27,9 @@ def handle (line : String) : String :=
     | "rt" => rtLine j
     | "rtseq" => rtseqLine j
     | "rtcyc" => rtcycLine j
+    | "qtrace" => qtraceLine j
+    | "qctor" => qctorLine j
+    | "qmeta" => verdict true true "meta" ""
     | k => verdict false true "bad-kind" k
 
 partial def loop (h : IO.FS.Stream) (out : IO.FS.Stream) : IO Unit := do
